@@ -59,17 +59,36 @@ func registerStd(p *Program) {
 		reg(n, nop)
 	}
 
+	registerJSON(p)
+	registerGob(p)
+
 	// ---- regexp: only what jsonreference/internal uses ----
+	rxPat := func(e *Exec, v Value) string {
+		return e.load(v.(Ptr)).(Native).X.(*Regexp).Pat
+	}
+	reg("(*regexp.Regexp).ReplaceAllString", func(e *Exec, fr *frame, fn *ssa.Function, a []Value) (Value, bool) {
+		pat := rxPat(e, a[0])
+		if pat == `/{2,}` && e.cstrOK(a[2]) == "/" {
+			return e.callFn(fr, e.P.Pkg.Func("vrefRxDupSlashes"), []Value{a[1]}, nil), true
+		}
+		e.unsupported("regexp.ReplaceAllString with pattern %q", pat)
+		return nil, true
+	})
+	reg("(*regexp.Regexp).ReplaceAllStringFunc", func(e *Exec, fr *frame, fn *ssa.Function, a []Value) (Value, bool) {
+		pat := rxPat(e, a[0])
+		if pat == `(:\d+)/?$` {
+			return e.callFn(fr, e.P.Pkg.Func("vrefRxPort"), []Value{a[1], a[2]}, nil), true
+		}
+		e.unsupported("regexp.ReplaceAllStringFunc with pattern %q", pat)
+		return nil, true
+	})
 	reg("regexp.MustCompile", func(e *Exec, _ *frame, fn *ssa.Function, a []Value) (Value, bool) {
 		o := e.newObj(nil, Native{X: &Regexp{Pat: e.cstr(a[0])}}, "regexp")
 		return Ptr{Obj: o}, true
 	})
 }
 
-func (e *Exec) absLen(s Slice) Value {
-	e.unsupported("len of abstract JSON bytes")
-	return nil
-}
+func (e *Exec) absLen(s Slice) Value { return e.absLenImpl(s) }
 
 var _ = strings.HasPrefix
 var _ types.Type
